@@ -110,6 +110,21 @@ def c17():
         rm_m, rm_j = (True, True) if i % 5 else (bool(rng.getrandbits(1)), bool(rng.getrandbits(1)))
         traces.append(residual_trace(i + 1, b, rng, bd, rm_m, rm_j))
     chk.monitor(traces, source="residual-updater-4-builders")
+    # an updater constructed detached and subscribed by hand after some dispatches: from its first notification
+    # on, the graph must be what it would be had it listened all along
+    traces = []
+    for i, b in enumerate((rb + behs)[: _n(chk, 60, 400)]):
+        s = dsession.DSession(50000 + i, b["inst"], b["filt"], ())
+        acts = [a for a in b["hist"] if a["a"] == "D"]
+        if s.create_graph_updater(BUILDERS[i % 4], True, True, subscribe=False) != "ok":
+            continue
+        cut = rng.randint(1, max(1, len(acts) - 1))
+        for k, a in enumerate(acts):
+            if k == cut:
+                s.subscribe_builtin(len(s.extra) - 1)
+            s.dispatch(a["j"], a["p"], a["m"])
+        traces.append(s.trace())
+    chk.monitor(traces, source="residual-updater-subscribed-late")
     return chk.finish(
         "TLC: removed operation nodes between completed and scheduled, machine/job nodes removed only when all "
         "their operations are scheduled, everything removed at the end (default options, every machine used), "
